@@ -92,6 +92,7 @@ def small_case(draw):
     out['strategy'] = draw(st.sampled_from(STRATEGIES))
     out['alpha'] = draw(st.sampled_from(COEFS))
     out['beta'] = draw(st.sampled_from(COEFS))
+    out['int_scores'] = draw(st.sampled_from(['none', 'none', 'relevance', 'all']))   # integral scores passed as Python ints
     return out
 
 
@@ -103,7 +104,8 @@ def big_case(draw):
                     'red_density': draw(st.sampled_from([0.0, 0.15, 0.5, 1.0])),
                     'rla_density': draw(st.sampled_from([0.0, 0.15, 0.5, 1.0])),
                     'red_self': draw(st.sampled_from([None, 0.0, 1.0, 5.0])),
-                    'rla_self': draw(st.sampled_from([None, 0.0, 1.0, 5.0]))},
+                    'rla_self': draw(st.sampled_from([None, 0.0, 1.0, 5.0])),
+                    'int_scores': draw(st.sampled_from(['none', 'none', 'relevance', 'all']))},
             'strategy': draw(st.sampled_from(STRATEGIES)),
             'alpha': draw(st.sampled_from(COEFS)), 'beta': draw(st.sampled_from(COEFS))}
 
@@ -208,6 +210,15 @@ def oracle(case, rec):
     feats, rel, red, rla, red_self, rla_self = materialize(case)
     strategy, alpha, beta = case['strategy'], float(case['alpha']), float(case['beta'])
     relevance, redundancy, relation = build_dicts(feats, rel, red, rla, red_self, rla_self)
+    ints = case.get('int_scores', 'none') if 'gen' not in case else case['gen'].get('int_scores', 'none')
+    if ints != 'none':
+        # scores are "finite numbers": integral ones may well arrive as Python ints (e.g. counts); same values, other type
+        as_int = lambda v: int(v) if float(v).is_integer() and abs(v) < 2**53 else v   # noqa: E731
+        relevance = {k: as_int(v) for k, v in relevance.items()}
+        if ints == 'all':
+            redundancy = {k: as_int(v) for k, v in redundancy.items()}
+            relation = {k: as_int(v) for k, v in relation.items()}
+        rec.cls('int-typed-scores:' + ints)
     df = rank_features_3MR(dict(relevance), dict(redundancy), dict(relation), strategy=strategy, alpha=alpha, beta=beta)
     n = len(feats)
     msg, order_idx = check_output(df, feats, rel, red, rla, strategy, alpha, beta)
